@@ -172,11 +172,28 @@ func interleavings(a, b int, prefix []byte, f func(s string) bool) bool {
 	return true
 }
 
-func interleavedReaders(r *core.Run) {
+func interleavedReaders(r *core.Run) { interleavedReadersFor(r, nil) }
+
+// interleavedReadersFor restricts the clause to the named formats (nil: all, plus the cross-format pairs).
+func interleavedReadersFor(r *core.Run, only []string) {
+	use := func(name string) bool {
+		if only == nil {
+			return true
+		}
+		for _, o := range only {
+			if o == name {
+				return true
+			}
+		}
+		return false
+	}
 	r.Bound("two-readers-interleaved", "same format: every ordered pair of small corpus files x EVERY interleaving of the pulls (items+1 pulls each); every ordered pair of medium files and the pair (9 KiB file, long-line file) x 4 fixed orders (alternating, pairs, A first, B first); different formats: the first medium file of each ordered pair of formats, alternating")
 	core.Clause(r, "two-readers-interleaved", core.Opts{Rule: "two Reader iterators alive at once and advanced alternately by one goroutine: each yields exactly what it yields alone, item by item, and every retained record still renders the same after both have finished; non-trivial = both inputs hold at least one item"},
 		func(emit func(interleaveCase) bool) {
 			for _, f := range formats {
+				if !use(f.Name) {
+					continue
+				}
 				small := corpus(f.Name, "small")
 				counts := make([]int, len(small))
 				for i, d := range small {
@@ -215,7 +232,7 @@ func interleavedReaders(r *core.Run) {
 			}
 			for _, fa := range formats {
 				for _, fb := range formats {
-					if fa.Name != fb.Name && !emit(interleaveCase{fa.Name, "medium/0", fb.Name, "medium/0", "ABABABABABABABABABABABABABABAB"}) {
+					if only == nil && fa.Name != fb.Name && !emit(interleaveCase{fa.Name, "medium/0", fb.Name, "medium/0", "ABABABABABABABABABABABABABABAB"}) {
 						return
 					}
 				}
